@@ -47,6 +47,59 @@ def cross_history_tags(rep, prop, observations):
     return len(by_tag)
 
 
+def _fault_job(args):
+    """All fault points k of one (config, history, op): the k-th mutating file-system call of the request fails with ENOSPC."""
+    cfg, hist, op, maxk = args
+    vios = {}
+    stats = {"cases": 0, "failed_requests": 0, "succeeded_despite_fault": 0, "requests": 0, "points": 0}
+    for k in range(maxk):
+        s = davsys.DavSys(cfg)
+        try:
+            s.replay(hist)
+            info = s.apply(("fault", k, tuple(op)), check=True)
+            f = info.get("fault") or {}
+            explore._merge_vios(vios, s.take_violations())
+            stats["requests"] += s.take_request_count()
+            if f.get("fired") is None:
+                stats["points"] = f.get("mutating_calls", k)
+                break
+            stats["cases"] += 1
+            if info.get("success"):
+                stats["succeeded_despite_fault"] += 1
+            else:
+                stats["failed_requests"] += 1
+            # the collection must stay usable: the same request without a fault afterwards is answered, and the audit follows the model
+            info2 = s.apply(tuple(op), check=True)
+            explore._merge_vios(vios, s.take_violations())
+            if info2.get("status") in (423, 500, 0, None) and not info2.get("success"):
+                sig = "C01|%s|write-refused-after-failed-write:%s:%s" % (cfg.label, op[0], info2.get("status"))
+                vios.setdefault(sig, {"summary": "after a write that failed with an injected ENOSPC at %s, repeating it is answered %s" % (f.get("fired"), info2.get("status")),
+                                      "witness": {"config": cfg.label, "history": [list(h) for h in hist], "op": list(op), "fault_point": k, "fired": f.get("fired")}, "count": 0})["count"] += 1
+        finally:
+            s.close()
+    return vios, stats
+
+
+def fault_phase(prop, rep, cfgs, histories, ops, workers=None, maxk=60):
+    """Environment deviations on top of E1 states: every single ENOSPC placement in every write of the menu."""
+    import multiprocessing as mp
+
+    jobs = [(cfg, list(h), list(op), maxk) for cfg in cfgs if not hasattr(cfg, "make") and cfg.front in ("wsgi", "aio") for h in histories for op in ops]
+    if not jobs:
+        return {}
+    ctx = mp.get_context("fork")
+    with ctx.Pool(workers or 16) as pool:
+        results = pool.map(_fault_job, jobs, chunksize=1)
+    tot = {"cases": 0, "failed_requests": 0, "succeeded_despite_fault": 0, "requests": 0}
+    for vios, stats in results:
+        for sig, e in vios.items():
+            if sig.startswith(prop + "|"):
+                rep.violation(sig.replace("|", "|fault-injected|", 1) if False else sig, e["summary"], e["witness"])
+        for k in tot:
+            tot[k] += stats[k]
+    return {"fault_injection": {"single_ENOSPC_placements_executed": tot["cases"], "requests_that_failed": tot["failed_requests"], "requests_that_still_succeeded": tot["succeeded_despite_fault"], "jobs": len(jobs)}}
+
+
 class StoreCfg:
     """A store-level (Store API) exploration configuration."""
 
@@ -62,7 +115,7 @@ class StoreCfg:
         return storesys.StoreSys(label=self.label, **self.kw)
 
 
-def run_configs(prop, tier, configs, depth_of, workers=None, level="model_checking", assumptions=None, rule=None, post=None, min_success=1):
+def run_configs(prop, tier, configs, depth_of, workers=None, level="model_checking", assumptions=None, rule=None, post=None, min_success=1, faults=None):
     """Explore every config; collect violations of `prop` only."""
     rep = Reporter(prop, tier)
     tot = {"states": 0, "transitions": 0, "replays": 0, "requests": 0, "successes": 0}
@@ -97,6 +150,12 @@ def run_configs(prop, tier, configs, depth_of, workers=None, level="model_checki
     extra_cov = {}
     if post:
         extra_cov = post(rep, all_obs) or {}
+    if faults:
+        fc = fault_phase(prop, rep, faults.get("configs", configs), faults["histories"], faults["ops"], workers=workers)
+        extra_cov.update(fc)
+        n = fc.get("fault_injection", {}).get("single_ENOSPC_placements_executed", 0)
+        tot["transitions"] += n
+        tot["replays"] += n
     cov = {
         "states": tot["states"],
         "transitions": tot["transitions"],
